@@ -56,6 +56,7 @@ type Rec struct {
 	End  bool   `json:"end,omitempty"`
 	Code int    `json:"code,omitempty"`
 	Aux  string `json:"aux,omitempty"`
+	Req  int    `json:"req,omitempty"` // down.hdr of an upstream response: the request it was produced for
 }
 
 type hist struct {
@@ -251,7 +252,7 @@ func (u *upStream) respond(status int, data, trailers bool) bool {
 	if u.failed || u.receiver == nil || !atomic.CompareAndSwapUint32(&u.done, 0, 1) {
 		return false
 	}
-	hdr := protocol.CommonHeader(map[string]string{"x-status": strconv.Itoa(status)})
+	hdr := protocol.CommonHeader(map[string]string{"x-status": strconv.Itoa(status), "x-req": strconv.Itoa(u.h.id)})
 	var d buffer.IoBuffer
 	var t api.HeaderMap
 	if data {
@@ -306,7 +307,13 @@ func (d *downSender) AppendHeaders(ctx context.Context, headers api.HeaderMap, e
 			}
 		}
 	}
-	d.h.add(Rec{Kind: "down.hdr", End: end, Code: code, Aux: kind})
+	req := 0
+	if kind == "up" && headers != nil {
+		if v, ok := headers.Get("x-req"); ok {
+			req, _ = strconv.Atoi(v) // the request this response was produced for
+		}
+	}
+	d.h.add(Rec{Kind: "down.hdr", End: end, Code: code, Aux: kind, Req: req})
 	if end {
 		d.BaseStream.DestroyStream() // the server stream is gone once the reply is complete (later resets do not reach the proxy)
 	}
